@@ -15,7 +15,7 @@ Kind(n) ==
   CASE n.k = "ProgramEntry" -> "entry"
     [] n.k = "FuncEntry"    -> "fentry"
     [] n.k = "Branch"       -> "branch"
-    [] n.k = "JumpLink" /\ n.lab = "__return__" -> "merge"
+    [] n.k = "JumpLink" /\ n.lab = "<return>" -> "merge"
     [] n.k = "JumpLink" /\ n.rd = 0 -> "jump"
     [] n.k = "JumpLink" /\ n.rd = 1 -> "call"
     [] n.k = "JumpLink"     -> "linkjump"
